@@ -52,9 +52,22 @@ impl CertificateAggregatorRequest for RouteRequester {
     }
 }
 
+/// A violation whose trigger is the one recorded for a known finding (`known-findings.json`):
+/// it is reported apart, the run goes on so that anything else is still seen.
+#[derive(Clone, Debug)]
+pub struct KnownHit {
+    pub finding: String,
+    pub clause: String,
+    pub detail: String,
+    pub step: usize,
+}
+
 pub struct Oracle {
     pub property: String,
     pub found: Vec<Found>,
+    pub known_hits: Vec<KnownHit>,
+    /// false in counterfactual re-runs: every violation is reported as such
+    pub attribute_known: bool,
     /// certificates in first-seen order
     pub certs: Vec<CertificateRow>,
     cert_seen_step: BTreeMap<String, usize>,
@@ -72,6 +85,8 @@ pub struct Oracle {
     liveness_checked: usize,
     liveness_excused: bool,
     c20_calls_seen: usize,
+    c20_ticks_seen: usize,
+    c16_deliveries_seen: usize,
     c06_epochs_done: BTreeSet<u64>,
     c06_artifacts_done: BTreeSet<String>,
     pub avk_by_epoch: BTreeMap<u64, String>,
@@ -85,6 +100,8 @@ impl Oracle {
         Oracle {
             property: property.to_string(),
             found: vec![],
+            known_hits: vec![],
+            attribute_known: true,
             certs: vec![],
             cert_seen_step: BTreeMap::new(),
             verified: BTreeSet::new(),
@@ -99,6 +116,8 @@ impl Oracle {
             liveness_checked: 0,
             liveness_excused: false,
             c20_calls_seen: 0,
+            c20_ticks_seen: 0,
+            c16_deliveries_seen: 0,
             c06_epochs_done: BTreeSet::new(),
             c06_artifacts_done: BTreeSet::new(),
             avk_by_epoch: BTreeMap::new(),
@@ -347,6 +366,7 @@ impl Oracle {
 
         // ---------------- single-signature rows (C16)
         if self.is("C16") {
+            self.check_suppression_c16(w, &open_messages, &sigs, step);
             self.check_rows_c16(w, &open_messages, &sigs, step);
         }
 
@@ -806,6 +826,10 @@ impl Oracle {
                 && valid.is_none()
                 && signers.iter().any(|s| s.party_id == producer_id)
                 && matches!(&d.msg.kind, MsgKind::Signature { producer_recording_epoch, .. } if *producer_recording_epoch + 1 == entity.signing_epoch())
+                // a party that could not ask the aggregator when it registered (down, or the
+                // round's parameters not published yet) and fell back on parameters that were
+                // replaced meanwhile is not an honest signer of this round
+                && Self::key_in_force(w, *producer, entity.signing_epoch() - 1, step).is_some_and(|k| k.parameters == pp)
             {
                 self.report(step, "honest-signature-rejected", format!("a signature produced by registered party {} for {} does not verify under its registered key", short(&producer_id), entity.label()));
             }
@@ -994,6 +1018,86 @@ impl Oracle {
         let vk = me.verification_key_for_concatenation.to_owned().into_inner().vk;
         sig.verify(&params, &vk, &me.stake, &avk, message.as_bytes())
         .map_err(|e| format!("{e:#}"))
+    }
+
+    /// (iv) nobody can make another party's contribution disappear: an honest, undamaged signature
+    /// of a party registered for the epoch, delivered (HTTP or message queue) while its round is
+    /// open at an aggregator working in that epoch, is recorded under that party — whatever
+    /// other parties submitted before.
+    fn check_suppression_c16(&mut self, w: &World, oms: &[crate::db::OpenMessageRow], sigs: &[crate::db::SingleSignatureRow], step: usize) {
+        let from = self.c16_deliveries_seen;
+        self.c16_deliveries_seen = w.deliveries.len();
+        for d in w.deliveries.iter().skip(from) {
+            let MsgKind::Signature { entity, producer, producer_recording_epoch, claimed, forged: None, signed_message, signature_hex, .. } = &d.msg.kind else { continue };
+            let party_id = w.parties[*producer].party_id.clone();
+            if d.damaged || *claimed != party_id || *producer_recording_epoch + 1 != entity.signing_epoch() || d.agg_epoch_view != entity.signing_epoch() {
+                continue;
+            }
+            // the round was open before the delivery and still is
+            let Some(om) = oms.iter().find(|o| o.entity == *entity && !o.is_certified && !o.is_expired) else { continue };
+            let Some((_, message, closed_before)) = self.open_messages.get(&om.id).cloned() else { continue };
+            if closed_before || message != *signed_message {
+                continue;
+            }
+            let signers = Self::model_signers(w, entity.signing_epoch(), d.step);
+            let pp = self.params(w, entity.signing_epoch());
+            if !signers.iter().any(|s| s.party_id == party_id)
+                || Self::key_in_force(w, *producer, *producer_recording_epoch, d.step).is_none_or(|k| k.parameters != pp)
+                || Self::verify_under_key(&pp, &signers, &party_id, signature_hex, &[], &message).is_err()
+            {
+                continue;
+            }
+            self.probe("c16_honest_deliveries_to_open_round");
+            if sigs.iter().any(|s| s.open_message_id == om.id && s.signer_id == party_id) {
+                continue;
+            }
+            // an aggregator that has just been restarted has not derived its signer set yet
+            let last_restart = w.restarts_at.last().copied().unwrap_or(0);
+            let ticked_since = w.tick_log.iter().rev().take_while(|t| t.0 > last_restart).filter(|t| t.1 != "idle" || t.2.is_none()).count();
+            if ticked_since < 2 {
+                self.probe("c16_refused_by_freshly_restarted_aggregator");
+                continue;
+            }
+            let same_payload_before: Vec<String> = w
+                .deliveries
+                .iter()
+                .filter(|x| x.step < d.step)
+                .filter_map(|x| match &x.msg.kind {
+                    MsgKind::Signature { signature_hex: h, claimed: c, .. } if h == signature_hex && *c != party_id => Some(format!("{} at step {} ({})", short(c), x.step, if x.status == 0 { "message queue".into() } else { format!("HTTP {}", x.status) })),
+                    _ => None,
+                })
+                .collect();
+            // known finding C16-dmq-dedup-ignores-sender: the repository's deduplicating DMQ client
+            // keys messages by payload only; the same payload delivered earlier through the
+            // message queue under another name (since the aggregator last started: the cache is in
+            // memory) makes it drop this one
+            let last_start = w.restarts_at.iter().rev().find(|s| **s <= d.step).copied().unwrap_or(0);
+            let dedup_trigger = d.status == 0
+                && w.deliveries.iter().any(|x| {
+                    x.step < d.step
+                        && x.step > last_start
+                        && x.status == 0
+                        && matches!(&x.msg.kind, MsgKind::Signature { signature_hex: h, entity: e, claimed: c, .. } if h == signature_hex && e == entity && *c != party_id)
+                });
+            if dedup_trigger && self.attribute_known {
+                self.probe("c16_known_dmq_dedup_suppression");
+                self.known_hits.push(KnownHit {
+                    finding: "C16-dmq-dedup-ignores-sender".into(),
+                    clause: "contribution-suppressed".into(),
+                    detail: format!(
+                        "the valid signature of registered party {} for {} reached the aggregator at step {} through the message queue while the round was open, and is not recorded: the same payload had been submitted before under another name ({})",
+                        short(&party_id), entity.label(), d.step, same_payload_before.join(", ")),
+                    step,
+                });
+                continue;
+            }
+            self.report(step, "contribution-suppressed", format!(
+                "the valid signature of registered party {} for {} reached the aggregator at step {} through {} while the round was open, and is not recorded{}{}",
+                short(&party_id), entity.label(), d.step,
+                if d.status == 0 { "the message queue".to_string() } else { format!("HTTP (status {})", d.status) },
+                if same_payload_before.is_empty() { String::new() } else { format!("; the same payload had been submitted before under another name: {}", same_payload_before.join(", ")) },
+                if d.response.is_empty() { String::new() } else { format!("; response: {}", crate::world::first_line(&d.response)) }));
+        }
     }
 
     fn check_rows_c16(&mut self, w: &World, oms: &[crate::db::OpenMessageRow], sigs: &[crate::db::SingleSignatureRow], step: usize) {
@@ -1203,6 +1307,29 @@ impl Oracle {
                 }
             } else if matches!(c.status, Some(201 | 202)) {
                 self.probe("c20_publications_accepted");
+            }
+        }
+        // (vi) a signer that considers itself registered for epoch E (it will not register again
+        // in E, and will sign with the stored key material at E + 2) has had a registration for
+        // recording epoch E + 1 accepted by the aggregator
+        let ticks: Vec<(usize, usize, String)> = w.signer_ticks.iter().skip(self.c20_ticks_seen).map(|t| (t.0, t.1, t.2.clone())).collect();
+        self.c20_ticks_seen = w.signer_ticks.len();
+        for (tick_step, p, label) in ticks {
+            let epoch = ["ready-to-sign(", "registered-not-able-to-sign("]
+                .iter()
+                .find_map(|prefix| label.strip_prefix(prefix))
+                .and_then(|rest| rest.trim_end_matches(')').parse::<u64>().ok());
+            let Some(e) = epoch else { continue };
+            self.probe("c20_registered_states_checked");
+            if Self::c20_registered_key(&calls, p, e + 1, calls.len()).is_none() {
+                let attempts: Vec<String> = calls
+                    .iter()
+                    .filter(|c| c.party == p && c.kind == "register-signer" && serde_json::from_str::<serde_json::Value>(&c.body).ok().and_then(|v| v["epoch"].as_u64()) == Some(e + 1))
+                    .map(|c| format!("step {}: {}{}", c.step, c.status.map(|s| s.to_string()).unwrap_or("not delivered".into()), if c.fault.is_empty() { String::new() } else { format!(" ({})", c.fault) }))
+                    .collect();
+                self.report(step, "registered-state-without-registration", format!(
+                    "signer {p} is in state '{label}' after its cycle at step {tick_step} although the aggregator never accepted a registration of it for recording epoch {}: it will not register again in this epoch and cannot sign at epoch {}; its registration attempts: [{}]",
+                    e + 1, e + 2, attempts.join("; ")));
             }
         }
         // (v) bounded liveness at the end of the quiescence script
